@@ -197,12 +197,17 @@ class Worker(courier_utils.CourierClient):
       self, worker_pool: WorkerPool, *, blocking: bool = False
   ) -> bool:
     """Acquires the worker if not acquired already."""
-    with self._states_lock:
-      if self._worker_pool is not worker_pool and self._lock.acquire(
-          blocking=blocking
-      ):
-        self._worker_pool = worker_pool
-      return self._worker_pool is worker_pool
+    while True:
+      with self._states_lock:
+        # Never waits for the ownership lock while holding the states lock: the
+        # owner needs the states lock to use and to release the worker.
+        if self._worker_pool is not worker_pool and self._lock.acquire(
+            blocking=False
+        ):
+          self._worker_pool = worker_pool
+        if not blocking or self._worker_pool is worker_pool:
+          return self._worker_pool is worker_pool
+      time.sleep(0)
 
   def release(self, worker_pool: WorkerPool | None = None):
     """Releases the worker, when given, only if not held by another pool."""
